@@ -706,7 +706,55 @@ func checkFlagWriteFilter(w *core.World, r *core.Report, rule string) {
 			r.Check(ok, rule, fmt.Sprintf("%s: dynamic %s", core.QName(fn), name), c.Pos(), why, "flag write with a run-time index is not behind the write filter: "+why)
 		}
 	}
-	r.Floor(rule, "dynamic flag writes", dyn, 2)
+	// flag writes through a function value: a parameter of a local closure (or unexported helper)
+	// that receives the bound methods State.SetFlag / State.ResetFlag at every call site
+	for _, fn := range w.LibFuncs {
+		for _, c := range core.Calls(fn) {
+			cc := c.Common()
+			if cc.IsInvoke() || core.StaticCallee(c) != nil {
+				continue
+			}
+			p, ok := cc.Value.(*ssa.Parameter)
+			if !ok || len(cc.Args) != 1 {
+				continue
+			}
+			sites, escapes := staticCallSites(w, fn)
+			pi := paramIndex(p)
+			if escapes || len(sites) == 0 || pi < 0 {
+				continue
+			}
+			all := true
+			name := ""
+			for _, sc := range sites {
+				a := core.CallArgs(sc)
+				// for a closure the explicit arguments start at 0 (bindings are separate)
+				if pi >= len(a) {
+					all = false
+					continue
+				}
+				mc, ok := core.Strip(a[pi]).(*ssa.MakeClosure)
+				if !ok {
+					all = false
+					continue
+				}
+				bf, ok := mc.Fn.(*ssa.Function)
+				if !ok || !(bf.Name() == "SetFlag$bound" || bf.Name() == "ResetFlag$bound") || !strings.Contains(bf.String(), "state.State") {
+					all = false
+					continue
+				}
+				name = "SetFlag/ResetFlag (bound method value)"
+			}
+			if !all || name == "" {
+				continue
+			}
+			dyn++
+			r.CallSites++
+			ok2, why := guardedByWriteable(w, c, cc.Args[0], 0)
+			r.Touch(core.QName(fn))
+			r.Check(ok2, rule, fmt.Sprintf("%s: dynamic %s", core.QName(fn), name), c.Pos(), why, "flag write with a run-time index is not behind the write filter: "+why)
+		}
+	}
+	r.Floor(rule, "dynamic flag writes", dyn, 1)
 }
 
 // checkFlagAddressing: no lossy narrowing and no narrow arithmetic in the functions of package
